@@ -17,7 +17,17 @@
    PARTIAL: region entry order follows document order in code and model alike (no set involved); generated identifiers (actor ids, timer keys) are outside the
    model and only covered by the subprocess comparison. *)
 From XSM Require Import Model.Macro Proofs.SortP Proofs.OrderP Proofs.HistP Proofs.LegalP Proofs.DescentP Proofs.InvariantP Proofs.PermP Proofs.SelectP Proofs.HistoryP Proofs.InvariantHP Proofs.PermHP.
+From XSM Require Import Model.TreeLib Gen.GenGeom Proofs.EntryBridge.
 From Coq Require Import Permutation.
+
+(* TIE T: the regions of a parallel state that are entered by default are, in BOTH engines' _enter_states as re-translated
+   from the current source on every run (Gen/GenGeom.v), the state's children in DOCUMENT order - a filter of an ordered list,
+   no set and no hash order - minus history children and the regions the entry list names *)
+Theorem C16_regions_entered_in_document_order : forall m l x rs,
+  kind_of m x = KParallel -> (GenGeom.descent_sync m l x = DescendInto rs \/ GenGeom.descent_async m l x = DescendInto rs) ->
+  rs = filter (fun c => negb (is_history m c) && negb (mem c (with_parent m l))) (children m x).
+Proof. exact source_regions_in_document_order. Qed.
+Print Assumptions C16_regions_entered_in_document_order.
 
 (* sorting with a strict total order gives one result per SET *)
 Theorem C16_sort_canonical : forall (lt : nat -> nat -> bool) (D : nat -> Prop),
